@@ -314,6 +314,33 @@ class Session:
             return bool(cond) if not isinstance(cond, (bool, np.bool_)) else bool(cond)
         return _c(cond).holds(0.0)
 
+    def uf(self, name, *args):
+        """uninterpreted real function of real arguments (sym) / a fixed nonlinear stand-in (conc)"""
+        if self.sym:
+            from .scalars import uf as _uf
+            return SymReal(_uf(name, *[as_real_term(a) for a in args]))
+        import zlib
+        h = zlib.crc32(name.encode()) % 97
+        acc = 0.31 * h
+        for i, a in enumerate(args):
+            acc += (1.37 + 0.41 * i) * float(a)
+        return math.sin(acc) + 0.01 * h
+
+    def native(self):
+        """context manager: run a block with the engine switched off (concrete structural sub-checks: dtypes, aliasing)"""
+        import contextlib
+
+        @contextlib.contextmanager
+        def cm():
+            prev = core.ctx()
+            core.set_ctx(None)
+            try:
+                yield
+            finally:
+                core.set_ctx(prev)
+
+        return cm()
+
     def fresh_real(self, name):
         """auxiliary existential for oracles (sym: fresh constant; conc: must not be used)"""
         if not self.sym:
